@@ -288,6 +288,12 @@ def one(emit, cid, fam, rng, sample):
         the rule is Beck & Teboulle's bound F(w_k) - F* <= 2 L |w_0 - w*|^2 / (k+1)^2 instead."""
         gap = float(F[k] - Fstar)
         allowed = 1e-5 * (1 + abs(Fstar))
+        if k == "skglm.GramCD":
+            # plain (greedy / cyclic, unaccelerated) coordinate descent has no rate on a singular or nearly singular Gram
+            # matrix: 20000 epochs are "generous" only when the quadratic is well conditioned
+            ev = np.linalg.eigvalsh(X.T @ X / n)
+            if ev[0] < 1e-3 * ev[-1]:
+                return None
         if k == "skglm.FISTA" and kstar is not None:
             Lg = float(norm(X, ord=2) ** 2 / n) / (4.0 if fam == "logreg_l1" else 1.0)
             allowed = max(allowed, 2 * Lg * float(norm(np.asarray(res[kstar][0])[:p]) ** 2) / (50000 + 1) ** 2 * 1.01)
